@@ -484,3 +484,97 @@ Proof.
   { split; apply (iter_buf_tag c s2 _ X2); eapply bufs_in; eauto; unfold iter_buf_locs; rewrite Bk, Bv; simpl; auto. }
   split; intros Hin; apply (census_not_iter c s2 _ X2) in Hin; apply Hin; apply Tk.
 Qed.
+
+(* ---------------------------------------------------------------- the mutants, refuted by computation *)
+
+(* dbIter.prev does not copy the value: i.value = i.iter.Value() *)
+Definition md_prev_value_slice : xmodes := fun p c =>
+  match p with XPIterValue _ DBwd => Slice | _ => xfixed p c end.
+
+(* Snapshot.Get returns the slice of the write buffer *)
+Definition md_snap_get_slice : xmodes := fun p c =>
+  match p with XPGetMem KSnap => Slice | _ => xfixed p c end.
+
+Definition cfg_pool_only : config := {| pool_on := true; cache_on := false; snappy := false; blk := 0 |}.
+Definition cfg_both : config := {| pool_on := true; cache_on := true; snappy := false; blk := 0 |}.
+Definition pk0 : picks := (Some 0, Some 0).
+
+(* two keys in two blocks of one table; the iterator goes to the last key; prev() leaves the table child in the
+   block of the entry before (ex2) *)
+Definition bw_pre : list xop :=
+  [XPut [1%N] [10%N]; XPut [2%N] [20%N]; EXFlush None; XIterNew AccDB; XIterMove 0 MLast [] pk0 [(0, Some 1, (None, None))]].
+(* a Get of the other key reuses the pooled buffer *)
+Definition bw_mid : list xop := [XGetBegin AccDB [1%N] [] pk0].
+
+Lemma bw_code_stable :
+  xiter_read (xfinal xfixed cfg_pool_only 16 bw_pre) 0 = Some (XPair (Some ([2%N], [20%N]))) /\
+  xiter_read (xfinal xfixed cfg_pool_only 16 (bw_pre ++ bw_mid)) 0 = Some (XPair (Some ([2%N], [20%N]))).
+Proof. split; vm_compute; reflexivity. Qed.
+
+Theorem prev_value_slice_refuted :
+  exists md c pbase pre mid i, get_modes_fixed md /\ (forall o, In o mid -> xmoves i o = false) /\
+    get_iter (xfinal md c pbase pre) i <> None /\
+    xiter_read (xfinal md c pbase (pre ++ mid)) i <> xiter_read (xfinal md c pbase pre) i.
+Proof.
+  exists md_prev_value_slice, cfg_pool_only, 16%N, bw_pre, bw_mid, 0. split; [intros k c; split; reflexivity|].
+  split; [intros o [<-|[]]; reflexivity|]. split; vm_compute; discriminate.
+Qed.
+
+(* the same mutant at Release: the value slice the caller kept is a slice of a block buffer that goes back to the pool
+   and is overwritten by the next read *)
+Definition rel_pre : list xop :=
+  [XPut [1%N] [10%N]; XPut [2%N] [20%N]; EXFlush None; XIterNew AccDB; XIterMove 0 MLast [] pk0 []].
+Definition rel_post : list xop := [XGetBegin AccDB [1%N] [] pk0].
+
+Theorem release_pools_exposed_buffer_refuted :
+  exists md c pbase pre post i it, get_modes_fixed md /\ get_iter (xfinal md c pbase pre) i = Some it /\
+    In (rloc (xi_exv it)) (census (xfinal md c pbase (pre ++ [XIterRelease i]))) /\
+    deref (xhp (xfinal md c pbase (pre ++ XIterRelease i :: post))) (xi_exv it) <> deref (xhp (xfinal md c pbase pre)) (xi_exv it).
+Proof.
+  exists md_prev_value_slice, cfg_pool_only, 16%N, rel_pre, rel_post, 0.
+  destruct (get_iter (xfinal md_prev_value_slice cfg_pool_only 16 rel_pre) 0) as [it|] eqn:E; [|vm_compute in E; discriminate].
+  exists it. split; [intros k c; split; reflexivity|]. split; auto. vm_compute in E. inversion E; subst it. split.
+  - vm_compute. auto.
+  - vm_compute. discriminate.
+Qed.
+
+Lemma release_code_keeps :
+  match get_iter (xfinal xfixed cfg_pool_only 16 rel_pre) 0 with
+  | Some it => deref (xhp (xfinal xfixed cfg_pool_only 16 (rel_pre ++ XIterRelease 0 :: rel_post))) (xi_exv it) = [20%N] /\
+               ~ In (rloc (xi_exv it)) (census (xfinal xfixed cfg_pool_only 16 (rel_pre ++ [XIterRelease 0]))) /\
+               census (xfinal xfixed cfg_pool_only 16 (rel_pre ++ [XIterRelease 0])) <> []
+  | None => False
+  end.
+Proof. vm_compute. repeat split; try discriminate. intros [H|[]]; discriminate. Qed.
+
+(* Snapshot.Get handing out the arena: the client's scribble changes what the DB returns later, and the separation
+   invariant is gone *)
+Definition snap_prog : list xop :=
+  [XPut [1%N] [10%N]; XSnapNew; XGetBegin (AccSnap 0) [1%N] [] pk0; XGetEnd 0; XScribble 0 0 [99%N];
+   XGetBegin AccDB [1%N] [] pk0; XGetEnd 1].
+
+Theorem snapshot_get_slice_refuted :
+  xoutputs md_snap_get_slice cfg_both 16 snap_prog <> xoutputs md_snap_get_slice cfg_both 16 (x_no_scribbles snap_prog)
+  /\ ~ xseparated (xfinal md_snap_get_slice cfg_both 16 snap_prog)
+  /\ xoutputs xfixed cfg_both 16 snap_prog = xoutputs xfixed cfg_both 16 (x_no_scribbles snap_prog).
+Proof.
+  split; [vm_compute; discriminate|]. split; [|vm_compute; reflexivity].
+  intros (V & _). assert (Hin : In (mkref 0 2 1) (xcvis (xfinal md_snap_get_slice cfg_both 16 snap_prog))) by (vm_compute; auto).
+  specialize (V _ Hin). vm_compute in V. discriminate.
+Qed.
+
+(* non-vacuity of the stability theorem: a backward walk through cached and pooled blocks with another iterator,
+   a read in flight, a flush and an eviction in between *)
+Example stable_nonvacuous :
+  let pre := [XPut [1%N] [10%N]; XPut [2%N] [20%N]; XPut [3%N] [30%N]; EXFlush None; XSnapNew; XPut [2%N] [21%N];
+              XIterNew (AccSnap 0); XIterMove 0 MLast [] pk0 [(0, Some 1, pk0)]; XIterMove 0 MPrev [] pk0 [(0, Some 2, pk0)]] in
+  let mid := [XIterNew AccDB; XIterMove 1 (MSeek [2%N]) [] pk0 []; XGetBegin AccDB [3%N] [] pk0; EXFlush (Some 0); EXEvict 0;
+              XIterMove 1 MPrev [] pk0 []; XGetEnd 0; XScribble 0 0 [7%N]; EXTableWrite 8 (Some 0) [5%N; 5%N; 5%N]; XIterRelease 1] in
+  (forall o, In o mid -> xmoves 0 o = false) /\
+  xiter_read (xfinal xfixed cfg_both 16 pre) 0 = Some (XPair (Some ([2%N], [20%N]))) /\
+  xiter_read (xfinal xfixed cfg_both 16 (pre ++ mid)) 0 = Some (XPair (Some ([2%N], [20%N]))) /\
+  xoutputs xfixed cfg_both 16 (pre ++ mid) = [XBool true; XBool true; XBool true; XBool true; XVal (Some [30%N])].
+Proof.
+  cbv zeta. split; [intros o H; simpl in H; repeat (destruct H as [<-|H]; [reflexivity|]); contradiction|].
+  repeat split; vm_compute; reflexivity.
+Qed.
